@@ -4,6 +4,7 @@ CONSTANTS
   Plan <- PlanDesign
   Dev_StopDropsDynamic = FALSE
   Dev_ExcRebuiltFromStr = FALSE
+  Dev_CtorFailureRaises = FALSE
 SPECIFICATION Spec
 INVARIANT Inv_WellFormed
 INVARIANT Inv_Identity
